@@ -285,7 +285,13 @@ func valueFor(r *rng, in, out colDesc) string {
 	}
 	switch f {
 	case "numeric", "timestamp":
-		return pick(r, []string{`0`, `1`, `-1`, `12`, `255`, `100`, `1632518460`, `"12"`, `"1"`, `7`, `127`, `null`})
+		if in.ty == "time" || out.ty == "time" || in.format == "date" || in.format == "datetime" || out.format == "date" || out.format == "datetime" {
+			// instants stay within years 0..9999 (the property's domain)
+			return pick(r, []string{`0`, `1`, `-1`, `12`, `255`, `100`, `1632518460`, `"12"`, `"1"`, `7`, `127`, `null`, `253402300799`})
+		}
+		return pick(r, []string{`0`, `1`, `-1`, `12`, `255`, `100`, `1632518460`, `"12"`, `"1"`, `7`, `127`, `null`,
+			// integers that no float64 carries exactly, and the 64-bit bounds
+			`9007199254740993`, `1632823189123456789`, `9223372036854775807`, `-9223372036854775808`, `-9007199254740993`, `18446744073709551615`, `253402300799`, `1.5`, `1e3`})
 	case "boolean":
 		return pick(r, []string{`true`, `false`, `0`, `1`, `"true"`, `"false"`, `null`})
 	case "binary":
